@@ -52,8 +52,13 @@ def expected_mech(sasl, authmech):
     return None
 
 
-def check(sasl, authmech, login, password, authz, verdict):
-    srv = RefServer({"sasl": sasl, "auth_ok": verdict, "password": password})
+def check(sasl, authmech, login, password, authz, verdict, refuse=False):
+    cfg = {"sasl": sasl, "auth_ok": verdict, "password": password}
+    if refuse:
+        # the server answers the initial AUTHENTICATE of whatever mechanism with NO
+        cfg["faults"] = [(b"AUTHENTICATE", 0, "NO")]
+        verdict = False
+    srv = RefServer(cfg)
     s = Session(srv)
     res = s.call("connect", login, password, authz, authmech=authmech)
     det = {"sasl": sasl, "authmech": authmech, "login": login, "password": password, "authz_id": authz, "server_accepts": verdict,
@@ -74,6 +79,13 @@ def check(sasl, authmech, login, password, authz, verdict):
         return out, exp
     if res[0] == "exc":
         out.append(("connect-raises|mech=%s|%s" % (exp, res[1]), det))
+        return out, exp
+    if refuse:
+        sent = [c.args[0].decode() for _, c in srv.log if c.verb == b"AUTHENTICATE"]
+        if sent != [exp]:
+            out.append(("another-attempt-after-refused-AUTHENTICATE|expected=%s|sent=%s" % (exp, ",".join(sent) or "none"), det))
+        if res == ("ret", True) or authenticated:
+            out.append(("connect-succeeds-after-refused-AUTHENTICATE|mech=%s" % exp, det))
         return out, exp
     if attempts != [exp]:
         out.append(("wrong-mechanism|expected=%s|tried=%s" % (exp, ",".join(attempts) or "none"), det))
@@ -136,6 +148,11 @@ def worker(arg):
     # every list x authmech once with fixed credentials (exhaustive selection part)
     for sasl in mine:
         for authmech in AUTHMECHS:
+            if len(sasl or []) >= 2:
+                f2, e2 = check(sasl, authmech, "user", "secret", "", True, refuse=True)
+                col.case(key=None, nontrivial=True, classes=["refused-initial-AUTHENTICATE"])
+                for b, d in f2:
+                    col.fail(b, {"sasl": sasl, "authmech": authmech, "login": "user", "password": "secret", "authz": "", "verdict": True, "refuse": True}, d, size=5 * len(sasl or []))
             fails, exp = check(sasl, authmech, "user", "secret", "", True)
             col.case(key=None, nontrivial=len([m for m in (sasl or []) if m in IMPL]) >= 2, classes=["selection-exhaustive", "mech:%s" % exp])
             for b, d in fails:
@@ -144,7 +161,7 @@ def worker(arg):
 
 
 def replay(case):
-    return check(case["sasl"], case["authmech"], case["login"], case["password"], case["authz"], case["verdict"])[0]
+    return check(case["sasl"], case["authmech"], case["login"], case["password"], case["authz"], case["verdict"], case.get("refuse", False))[0]
 
 
 def main(tier, seed, t0):
